@@ -110,6 +110,13 @@ def mutations(seed, cls, extra=()):
                 out.append(s[:pos] + bytes([val]) + s[pos + 1:])
         out.append(s + b'\x00')
         out.append(s + s)
+        # the same header with a payload of all-zero / all-one bytes (degenerate key material, empty strings, zero lengths)
+        for keep in (1, 2, 3, 4, 5, 6, 8):
+            if keep < len(s):
+                for fill in (0x00, 0xff):
+                    out.append(s[:keep] + bytes([fill]) * (len(s) - keep))
+                    for extra_len in (32, 56, 57, 64, 96):
+                        out.append(s[:keep] + bytes([fill]) * extra_len)
     return out
 
 
